@@ -17,11 +17,18 @@ def fold(node, env):
         return node.value
     if isinstance(node, ast.Name) and node.id in env:
         return env[node.id]
-    if isinstance(node, ast.Attribute):
+    if isinstance(node, (ast.Attribute, ast.Subscript)):
         t = ast.unparse(node)
         if t in env:
             return env[t]
+        if isinstance(node, ast.Subscript) and isinstance(node.value, ast.Dict):
+            k = fold(node.slice, env)
+            for kn, vn in zip(node.value.keys, node.value.values):
+                if fold(kn, env) == k:
+                    return fold(vn, env)
         raise _NoFold(t)
+    if isinstance(node, ast.IfExp):
+        return fold(node.body, env) if fold(node.test, env) else fold(node.orelse, env)
     if isinstance(node, ast.BinOp):
         a, b = fold(node.left, env), fold(node.right, env)
         op = type(node.op)
